@@ -230,6 +230,20 @@ PROPS['C19'] = {
     'technique': 'contract-based deductive verification (Verus on the mechanically extracted extern "C" functions, raw-pointer slices through rewrite R9, Z3)',
 }
 
+PROPS['C06'] = {
+    'units': [{'template': 'expr.rs', 'rlimit': 30, 'items': [r'^datalog::expression::']}],
+    'proved': 'Binary::evaluate, for all i64 operands: add / sub / mul return the mathematical result or Err(Overflow) (never wrap-around), division by zero is Err(DivideByZero), MIN / -1 is an error, '
+              'comparisons and (strict and heterogeneous) equality on integers equal their definitions, && and || on booleans; type strictness: an Ok result implies the operator / operand-kind combination is in the '
+              'table of the Biscuit specification, every combination outside it returns Err(InvalidType), and heterogeneous (in)equality on scalar operands of different kinds is Ok(false) / Ok(true). '
+              'Unary::evaluate: negate, parens, and the kind table. Expression::evaluate (the stack machine): no index / pop / remove / unwrap side condition can fail for any operation sequence and any bindings, '
+              'an empty program is Err(InvalidStack).',
+    'not_covered': ['what the arms on strings, byte arrays, sets, arrays, maps and extern functions return, and their panic-freedom (rule A3: abstracted)',
+                    'Binary::evaluate_with_closure (slice patterns are outside Verus): lazy && / ||, all / any binding and the shadowing test are NOT decided', 'TemporarySymbolTable'],
+    'assumptions': ['derived Clone / comparison traits of Term; HashMap<u32, Term> through vstd; the shadowing test expression computes `some closure parameter is already bound` (per-item rewrite)',
+                    'Binary::evaluate_with_closure: assumed to return (contract-free callee)'],
+    'level_text': 'Deductive proof for all operands of the integer / boolean / null / kind-table part of the evaluator and of the panic-freedom of the stack machine; the collection-valued arms and the closure evaluation are abstracted or assumed, so the property is decided only for the part named in the evidence.',
+}
+
 # obligation pattern -> concrete witness search on the real crate (replay/src/main.rs)
 WITNESS = {
     r'token::(unverified::UnverifiedBiscuit|Biscuit)::block::call-pre': 'tools/replay.sh block_index',
@@ -246,7 +260,6 @@ WITNESS = {
 
 NOT_APPLICABLE = {
     'C05': 'the join/fixpoint engine is Box<dyn Iterator> + move closures over HashMap<Origin, HashSet<Fact>>: Verus cannot type the iterator objects, so no contract can be attached to the join; Kani did not terminate on this code (DESIGN.md 5/C05)',
-    'C06': 'check not built yet in this revision (planned: Binary::evaluate integer arms, DESIGN.md 5/C06)',
     'C11': 'quantifies over hash iteration orders of the closure/iterator engine code that neither verifier ingests (DESIGN.md 5/C11)',
     'C13': 'snapshot()/from_snapshot() are chains of iter().map(closure).collect::<Result<..>>() over prost messages with symbol re-interning: outside Verus subset, Kani out of budget (DESIGN.md 5/C13)',
     'C14': 'printing is fmt::Display/format! (macro-generated), parsing is nom combinators (closures returning closures): there is no function on either side to which a contract can be attached (DESIGN.md 5/C14)',
